@@ -226,6 +226,10 @@ pub fn add_noise(rg: &mut Rg, e: &mut EnumSpec) {
     if rg.chance(1, 5) {
         e.decoys.push("#[allow(dead_code)] pub trait Default { fn default() -> Self; }".to_string());
     }
+    // ... and the one-parameter `Result` alias found in most real modules
+    if rg.chance(1, 5) {
+        e.decoys.push("#[allow(dead_code)] pub type Result<T> = ::core::result::Result<T, ()>;".to_string());
+    }
 }
 
 /// `macro_rules!` expression fragments usable in discriminant expressions: (argument text, value).
